@@ -150,8 +150,18 @@ class Receiver(RuleAnalysis):
         return [fact], [fact]
 
 
-def _errno_of(raise_node) -> str:
-    return next((x.attr for x in ast.walk(raise_node) if isinstance(x, ast.Attribute) and x.attr.startswith("E") and x.attr.isupper()), "")
+def _errno_of(raise_node, fn=None) -> str:
+    """the errno constant of `raise error_from_errno(E...)`; `raise _helper()` is read through a private helper whose body is one return"""
+    direct = next((x.attr for x in ast.walk(raise_node) if isinstance(x, ast.Attribute) and x.attr.startswith("E") and x.attr.isupper()), "")
+    if direct or fn is None:
+        return direct
+    from sa.norm import helper_return_expr
+    exc = getattr(raise_node, "exc", None)
+    if isinstance(exc, ast.Call):
+        r = helper_return_expr(fn, exc)
+        if r is not None:
+            return next((x.attr for x in ast.walk(r[0]) if isinstance(x, ast.Attribute) and x.attr.startswith("E") and x.attr.isupper()), "")
+    return ""
 
 
 def check_receivers(eng, run):
@@ -200,9 +210,21 @@ def check_receivers(eng, run):
         store_ok = bool(an.latch_stores)
         for st in an.latch_stores:
             guarded = False
+            from sa.norm import cmp_canon, strip_not
             for iff in own_nodes(fn.node):
-                if isinstance(iff, ast.If) and st in iff.body and isinstance(iff.test, ast.UnaryOp) and isinstance(iff.test.op, ast.Not) and isinstance(iff.test.operand, ast.Name):
+                if not isinstance(iff, ast.If) or not (st in iff.body or st in iff.orelse):
+                    continue
+                t, neg = strip_not(iff.test)
+                if st in iff.orelse:
+                    neg = not neg
+                # the branch taken when the value just read is empty: `not x` / `x == 0` / `x <= 0` / `len(x) == 0` (or the else-arm of the opposite test)
+                if isinstance(t, ast.Name) and neg:
                     guarded = True
+                c = cmp_canon(fn, ast.UnaryOp(op=ast.Not(), operand=t) if neg else t)
+                if c is not None and len([k for k in c[0] if k]) == 1:
+                    (k, coef), const = next((kv for kv in c[0].items() if kv[0])), c[0].get("", 0)
+                    if (c[1] == "==" and const == 0) or (c[1] == ">=" and coef == -1 and const == 0) or (c[1] == ">" and coef == -1 and const == 1):
+                        guarded = True
             if not guarded:
                 store_ok = False
                 run.finding("C03.latch", fn, st, "the end-of-stream latch is set outside the `empty read` branch")
@@ -254,7 +276,7 @@ def check_receivers(eng, run):
                 run.finding("C03.eof", fn, r, "receive() returns something that is not a packet produced by consumer.next() (a trailing partial frame / raw data would be delivered)")
         errnos = []
         for node, eof in an.eof_raises:
-            e = _errno_of(node)
+            e = _errno_of(node, fn)
             errnos.append((eof, e))
             if eof == "T" and e != "ECONNABORTED":
                 eof_bad.append((node, ""))
